@@ -269,6 +269,7 @@ func (s *system) battery(name string, in *sl.Inst) {
 			continue
 		}
 		sl.PQCheck(o, "flat", env, s.m, p)
+		sl.VectorKeysCheck(o, "flat", d["index/vectorFlat/"+p], sl.NodeIds(d), s.m, p)
 		qv := queries
 		if p == "ham" {
 			qv = hqueries
